@@ -2,7 +2,7 @@
 EXTENDS SpyneWsdl, Json, IOUtils, SequencesExt
 Ser(a) == [name |-> a.name, tns |-> a.tns, services |-> [k \in 1..Len(a.services) |->
              [cls |-> a.services[k].cls, pts |-> a.services[k].pts, methods |-> SetToSeq(a.services[k].methods)]]]
-ASSUME JsonSerialize(IOEnv.OUT_FILE, SetToSeq({Ser(a) : a \in Apps}))
+ASSUME JsonSerialize(IOEnv.OUT_FILE, SetToSeq({Ser(a) : a \in (IF IOEnv.FAMILY = "thorough" THEN AppsThorough ELSE Apps)}))
 VARIABLE x
 Init == x = 0
 Next == UNCHANGED x
